@@ -37,6 +37,9 @@ class Check(object):
            timeout=3000, must_cover=None, label=None, **kw):
         """Run TLC exhaustively.  expect_violation: name of the invariant that a negative
         (hazard) instance must violate -- the vacuity guard."""
+        if os.environ.get('VERIF_SKIP_MC'):      # development aid for mutation campaigns (never set by a registered command)
+            self.cov['stages'].append({'stage': 'MC', 'spec': module, 'cfg': cfg or module, 'label': 'SKIPPED (VERIF_SKIP_MC)'})
+            return None
         r = tlc.run(module, cfg, workdir=self.work, env=env, workers=workers, heap=heap,
                     timeout=timeout, coverage=bool(must_cover), **kw)
         stage = {'stage': 'MC', 'spec': module, 'cfg': cfg or module, 'generated': r.generated,
